@@ -508,13 +508,12 @@ theorem augFold_rel (l : List Stmt) (hl : ∀ a ∈ l, U a) (s₁ s₂ : TState)
 /-- One field step of the directory case, on both sides.  The include step is not covered (the
 statement has no include substatement); the augment step (module statements only) needs the state
 relation to survive the recording of related augment lists. -/
-theorem step_rel
-    (htype : ∀ t, n.one? "type" = some t →
-      env₁.tres.resolve env₁.reg root₁ sub₁ t = env₂.tres.resolve env₂.reg root₂ sub₂ t)
-    (isMod : Bool)
+theorem step_rel (isMod : Bool)
     (haug : isMod = true → ∀ s₁ s₂ as₁ as₂, RS s₁ s₂ → RelL RE as₁ as₂ →
       RS { s₁ with augs := s₁.augs ++ [(root₁.seq, as₁)] } { s₂ with augs := s₂.augs ++ [(root₂.seq, as₂)] })
     (acc₁ acc₂ : Entry × TState) (f : String) (hU : ∀ c, Called n f c → U c)
+    (htype : f = "type" → ∀ t, n.one? "type" = some t →
+      env₁.tres.resolve env₁.reg root₁ sub₁ t = env₂.tres.resolve env₂.reg root₂ sub₂ t)
     (hinc : f = "include" → n.all "include" = [])
     (h : AccRel RE RS acc₁ acc₂)
     (hk : acc₁.1.d.kind = acc₂.1.d.kind)
@@ -527,13 +526,13 @@ theorem step_rel
   dsimp only at he hs hk hin hout
   have hUall : ∀ g, g ∈ convKws → (∀ c, Called n g c → U c) → ∀ c ∈ n.all g, U c :=
     fun g hg h c hc => h c (Or.inl ⟨hg, hc⟩)
-  revert hinc hU
+  revert hinc htype hU
   have hgood : ∀ (g : EData → EData), GoodF g → RE (e₁.withD g) (e₂.withD g) := fun g hg => hC.withD _ _ g hg he
   unfold stepFn
   dsimp only
   split
   all_goals try dsimp only
-  all_goals intro hU hinc
+  all_goals intro hU htype hinc
   all_goals first
     | exact ⟨he, hs⟩
     | exact ⟨hC.addErrs _ _ _ (hgood _ ⟨fun _ => rfl, fun _ _ => rfl⟩), hs⟩
@@ -571,7 +570,7 @@ theorem step_rel
     split
     · exact ⟨he, hs⟩
     · rename_i t ht
-      have ht' := htype t ht
+      have ht' := htype rfl t ht
       generalize hA : env₂.tres.resolve env₂.reg root₂ sub₂ t = A at ht'
       change AccRel RE RS
         (if (env₁.tres.resolve env₁.reg root₁ sub₁ t).2.isEmpty = true then
@@ -626,7 +625,7 @@ theorem step_rel
 
 /-- All field steps, from the initial entries. -/
 theorem steps_rel
-    (htype : ∀ t, n.one? "type" = some t →
+    (htype : "type" ∈ fieldOrder n.kw → ∀ t, n.one? "type" = some t →
       env₁.tres.resolve env₁.reg root₁ sub₁ t = env₂.tres.resolve env₂.reg root₂ sub₂ t)
     (hU : ∀ f ∈ fieldOrder n.kw, ∀ c, Called n f c → U c)
     (hinc : "include" ∈ fieldOrder n.kw → n.all "include" = []) (isMod : Bool)
@@ -636,11 +635,11 @@ theorem steps_rel
     AccRel RE RS ((fieldOrder n.kw).foldl (stepFn env₁ r1 root₁ n sub₁ vis₁ isMod) (e0 root₁ n, s₁))
       ((fieldOrder n.kw).foldl (stepFn env₂ r2 root₂ n sub₂ vis₂ isMod) (e0 root₂ n, s₂)) := by
   have k0 : (e0 root₁ n).d.kind = (e0 root₂ n).d.kind := by rw [(e0_data root₁ n).2.1, (e0_data root₂ n).2.1]
-  have S := step_rel hC env₁ env₂ r1 r2 root₁ root₂ n sub₁ sub₂ vis₁ vis₂ hch htype isMod haug
+  have S := step_rel hC env₁ env₂ r1 r2 root₁ root₂ n sub₁ sub₂ vis₁ vis₂ hch isMod haug
   by_cases hio : "input" ∈ fieldOrder n.kw ∨ "output" ∈ fieldOrder n.kw
   · rw [fieldOrder_io _ hio] at hU ⊢
     simp only [List.foldl]
-    have t1 := S (e0 root₁ n, s₁) (e0 root₂ n, s₂) "output" (hU _ (by simp)) (fun h => absurd h (by decide)) ⟨hbase, hs⟩ k0
+    have t1 := S (e0 root₁ n, s₁) (e0 root₂ n, s₂) "output" (hU _ (by simp)) (fun h => absurd h (by decide)) (fun h => absurd h (by decide)) ⟨hbase, hs⟩ k0
       (fun h => absurd h (by decide)) (fun _ => ⟨rfl, rfl⟩)
     have a1 := rootKeep_stepFn env₁ r1 root₁ n sub₁ vis₁ isMod (e0 root₁ n, s₁) "output"
     have b1 := rootKeep_stepFn env₂ r2 root₂ n sub₂ vis₂ isMod (e0 root₂ n, s₂) "output"
@@ -649,25 +648,25 @@ theorem steps_rel
     generalize stepFn env₁ r1 root₁ n sub₁ vis₁ isMod (e0 root₁ n, s₁) "output" = x1 at t1 a1 i1 ⊢
     generalize stepFn env₂ r2 root₂ n sub₂ vis₂ isMod (e0 root₂ n, s₂) "output" = y1 at t1 b1 j1 ⊢
     have k1 : x1.1.d.kind = y1.1.d.kind := by rw [a1.2.1, b1.2.1]; exact k0
-    have t2 := S x1 y1 "input" (hU _ (by simp)) (fun h => absurd h (by decide)) t1 k1 (fun _ => ⟨i1, j1⟩) (fun h => absurd h (by decide))
+    have t2 := S x1 y1 "input" (hU _ (by simp)) (fun h => absurd h (by decide)) (fun h => absurd h (by decide)) t1 k1 (fun _ => ⟨i1, j1⟩) (fun h => absurd h (by decide))
     have a2 := rootKeep_stepFn env₁ r1 root₁ n sub₁ vis₁ isMod x1 "input"
     have b2 := rootKeep_stepFn env₂ r2 root₂ n sub₂ vis₂ isMod y1 "input"
     generalize stepFn env₁ r1 root₁ n sub₁ vis₁ isMod x1 "input" = x2 at t2 a2 ⊢
     generalize stepFn env₂ r2 root₂ n sub₂ vis₂ isMod y1 "input" = y2 at t2 b2 ⊢
     have k2 : x2.1.d.kind = y2.1.d.kind := by rw [a2.2.1, b2.2.1]; exact k1
-    have t3 := S x2 y2 "grouping" (hU _ (by simp)) (fun h => absurd h (by decide)) t2 k2 (fun h => absurd h (by decide)) (fun h => absurd h (by decide))
+    have t3 := S x2 y2 "grouping" (hU _ (by simp)) (fun h => absurd h (by decide)) (fun h => absurd h (by decide)) t2 k2 (fun h => absurd h (by decide)) (fun h => absurd h (by decide))
     have a3 := rootKeep_stepFn env₁ r1 root₁ n sub₁ vis₁ isMod x2 "grouping"
     have b3 := rootKeep_stepFn env₂ r2 root₂ n sub₂ vis₂ isMod y2 "grouping"
     generalize stepFn env₁ r1 root₁ n sub₁ vis₁ isMod x2 "grouping" = x3 at t3 a3 ⊢
     generalize stepFn env₂ r2 root₂ n sub₂ vis₂ isMod y2 "grouping" = y3 at t3 b3 ⊢
     have k3 : x3.1.d.kind = y3.1.d.kind := by rw [a3.2.1, b3.2.1]; exact k2
-    exact S x3 y3 "description" (hU _ (by simp)) (fun h => absurd h (by decide)) t3 k3 (fun h => absurd h (by decide)) (fun h => absurd h (by decide))
+    exact S x3 y3 "description" (hU _ (by simp)) (fun h => absurd h (by decide)) (fun h => absurd h (by decide)) t3 k3 (fun h => absurd h (by decide)) (fun h => absurd h (by decide))
   · have hni : "input" ∉ fieldOrder n.kw := fun h => hio (Or.inl h)
     have hno : "output" ∉ fieldOrder n.kw := fun h => hio (Or.inr h)
     refine (foldl_rel (fun (a₁ a₂ : Entry × TState) => AccRel RE RS a₁ a₂ ∧ a₁.1.d.kind = a₂.1.d.kind) _ _ _ _ _
       ⟨⟨hbase, hs⟩, k0⟩ ?_).1
     rintro a₁ a₂ f hf ⟨ha, hk⟩
-    refine ⟨S a₁ a₂ f (hU f hf) (fun h => hinc (h ▸ hf)) ha hk (fun h => absurd (h ▸ hf) hni) (fun h => absurd (h ▸ hf) hno), ?_⟩
+    refine ⟨S a₁ a₂ f (hU f hf) (fun h => htype (h ▸ hf)) (fun h => hinc (h ▸ hf)) ha hk (fun h => absurd (h ▸ hf) hni) (fun h => absurd (h ▸ hf) hno), ?_⟩
     rw [(rootKeep_stepFn env₁ r1 root₁ n sub₁ vis₁ isMod a₁ f).2.1,
       (rootKeep_stepFn env₂ r2 root₂ n sub₂ vis₂ isMod a₂ f).2.1]
     exact hk
@@ -733,9 +732,10 @@ after the entry has been recorded in the grouping cache resp. the module cache. 
 theorem core_relQ (Q : Entry × TState → Entry × TState → Prop)
     (s₁ s₂ : TState) (hs : RS s₁ s₂) (lk₁ lk₂ : Option GroupingRef) (isMod : Bool)
     (hbase : RE (e0 root₁ n) (e0 root₂ n))
-    (hleaf : ∀ syn, RE (leafEntry env₁ root₁ scope₁ n syn) (leafEntry env₂ root₂ scope₂ n syn))
-    (herr : RE (errorEntry root₁ n "unknown-group") (errorEntry root₂ n "unknown-group"))
-    (htype : ∀ t, n.one? "type" = some t →
+    (hleaf : n.kw = "leaf" ∨ n.kw = "leaf-list" →
+      ∀ syn, RE (leafEntry env₁ root₁ scope₁ n syn) (leafEntry env₂ root₂ scope₂ n syn))
+    (herr : n.kw = "uses" → RE (errorEntry root₁ n "unknown-group") (errorEntry root₂ n "unknown-group"))
+    (htype : "type" ∈ fieldOrder n.kw → ∀ t, n.one? "type" = some t →
       env₁.tres.resolve env₁.reg root₁ (n :: scope₁) t = env₂.tres.resolve env₂.reg root₂ (n :: scope₂) t)
     (hinc : "include" ∈ fieldOrder n.kw → n.all "include" = [])
     (hch : ∀ c, (∃ f ∈ fieldOrder n.kw, Called n f c) → ∀ t₁ t₂, RS t₁ t₂ →
@@ -757,11 +757,13 @@ theorem core_relQ (Q : Entry × TState → Entry × TState → Prop)
     Q (core env₁ r1 root₁ scope₁ n vis₁ s₁ lk₁ isMod) (core env₂ r2 root₂ scope₂ n vis₂ s₂ lk₂ isMod) := by
   unfold core
   split
-  · exact hplain _ _ _ _ (hleaf false) hs
+  · rename_i hl
+    exact hplain _ _ _ _ (hleaf (Or.inl (by simpa using hl)) false) hs
   · split
-    · refine hplain _ _ _ _ ?_ hs
+    · rename_i hl
+      refine hplain _ _ _ _ ?_ hs
       rw [leafList_eq, leafList_eq]
-      exact hC.addErrs _ _ _ (hC.withD _ _ _ ⟨fun _ => rfl, fun _ _ => rfl⟩ (hleaf true))
+      exact hC.addErrs _ _ _ (hC.withD _ _ _ ⟨fun _ => rfl, fun _ _ => rfl⟩ (hleaf (Or.inr (by simpa using hl)) true))
     · split
       · rename_i hu
         have hu' : n.kw = "uses" := by simpa using hu
@@ -769,7 +771,7 @@ theorem core_relQ (Q : Entry × TState → Entry × TState → Prop)
         cases lk₁ with
         | none =>
           cases lk₂ with
-          | none => exact hplain _ _ _ _ herr hs
+          | none => exact hplain _ _ _ _ (herr hu') hs
           | some r => obtain ⟨g, gr, gs⟩ := r; exact absurd this id
         | some r =>
           obtain ⟨g₁, gr₁, gs₁⟩ := r
@@ -805,9 +807,10 @@ theorem core_relQ (Q : Entry × TState → Entry × TState → Prop)
 /-- The same with the relation "related entries, related states" between the results. -/
 theorem core_rel (s₁ s₂ : TState) (hs : RS s₁ s₂) (lk₁ lk₂ : Option GroupingRef) (isMod : Bool)
     (hbase : RE (e0 root₁ n) (e0 root₂ n))
-    (hleaf : ∀ syn, RE (leafEntry env₁ root₁ scope₁ n syn) (leafEntry env₂ root₂ scope₂ n syn))
-    (herr : RE (errorEntry root₁ n "unknown-group") (errorEntry root₂ n "unknown-group"))
-    (htype : ∀ t, n.one? "type" = some t →
+    (hleaf : n.kw = "leaf" ∨ n.kw = "leaf-list" →
+      ∀ syn, RE (leafEntry env₁ root₁ scope₁ n syn) (leafEntry env₂ root₂ scope₂ n syn))
+    (herr : n.kw = "uses" → RE (errorEntry root₁ n "unknown-group") (errorEntry root₂ n "unknown-group"))
+    (htype : "type" ∈ fieldOrder n.kw → ∀ t, n.one? "type" = some t →
       env₁.tres.resolve env₁.reg root₁ (n :: scope₁) t = env₂.tres.resolve env₂.reg root₂ (n :: scope₂) t)
     (hinc : "include" ∈ fieldOrder n.kw → n.all "include" = [])
     (hch : ∀ c, (∃ f ∈ fieldOrder n.kw, Called n f c) → ∀ t₁ t₂, RS t₁ t₂ →
